@@ -213,6 +213,15 @@ Theorem C32_nuts_merge_unbiased_partial :
 Proof. exact merge_unbiased. Qed.
 
 (* ------------------------------------------------------------------------------------------
+   (6) Momentum refresh on pytree positions: every leaf is drawn with its own sub-key (pairwise distinct,
+   one per leaf), so leaves of equal shape get independent streams; handing the same key to every
+   leaf (>= 2 leaves) does not have that property. *)
+Theorem C32_momentum_keys_distinct :
+  forall n : nat, NoDup (leaf_keys n) /\ length (leaf_keys n) = n /\
+                  ((2 <= n)%nat -> ~ NoDup (leaf_keys_shared n)).
+Proof. intro n. split; [apply leaf_keys_NoDup | split; [apply leaf_keys_length | apply leaf_keys_shared_dup]]. Qed.
+
+(* ------------------------------------------------------------------------------------------
    Non-vacuity: the ring hypotheses are met by Qc (with its field division), and the checkpoint
    theorem's hypotheses by n = 7 (reads slots 0,1,2 holding leaves 0,4,6). *)
 From Coq Require Import Qcanon.
